@@ -49,11 +49,22 @@ MergeMap(in) == LET m == Collect(in, EmptyMap) IN [id \in DOMAIN m |-> SeqMax(m[
 
 \* ---- laws ----
 \* out: sequence of <<id, fixed-point score>> recorded from (or computed for) an aggregation
+\* infinite input scores are the tokens PInfTok / NInfTok; recorded infinite outputs are the sentinels PInfOut / NInfOut
+\* (a list never mixes both signs, so no NaN arises)
+PInfTok == 1000001
+NInfTok == -1000001
+PInfOut == 2000000000
+NInfOut == -2000000000
+ScoresOf(in, id) == {in[i][2] : i \in {j \in DOMAIN in : in[j][1] = id}}
+FiniteIn(in) == SelectSeq(in, LAMBDA p : p[2] # PInfTok /\ p[2] # NInfTok)
 AggOK(in, out, kind, ascending, S, U) ==
-  LET m == AggMap(kind, in) IN
+  LET m == AggMap(kind, FiniteIn(in)) IN
   /\ IdsOf(out) = IdsOf(in) /\ NoDupIds(out)
   /\ \A i \in DOMAIN out :
-       LET v == m[out[i][1]] IN Abs(out[i][2] - ((v[1] * S) \div (v[2] * U))) <= 1
+       LET id == out[i][1]  sc == ScoresOf(in, id) IN
+       IF PInfTok \in sc THEN out[i][2] = PInfOut                                  \* sum, max and mean with +Inf are +Inf
+       ELSE IF NInfTok \in sc /\ (kind # "max" \/ sc = {NInfTok}) THEN out[i][2] = NInfOut
+       ELSE LET v == m[id] IN Abs(out[i][2] - ((v[1] * S) \div (v[2] * U))) <= 1   \* (max ignores -Inf next to finite scores)
   /\ IF ascending THEN AscendingEps(out, 0) ELSE DescendingEps(out, 0)
 
 \* the same output whatever the input order (so equal scores must be ordered by a rule, not by accident)
